@@ -380,7 +380,9 @@ def core_frames(db, blocks):
     objs = list(db.frames) + ([None] if db.signals else [])
     for b, f in zip(blocks, objs):
         sigs = list(f.signals) if f is not None else list(db.signals)
-        out.append({"bo": b["bo"], "sigs": [{"sg": sg, "comment": (s.comment or None)} for sg, s in zip(b["sigs"], sigs)],
+        out.append({"bo": b["bo"], "sigs": [{"sg": sg, "comment": (s.comment or None),
+                                             "values": [[int(k), str(t)] for k, t in sorted(s.values.items(), key=lambda kv: int(kv[0]))]}
+                                            for sg, s in zip(b["sigs"], sigs)],
                     "more": list(f.transmitters[1:]) if f is not None else [], "comment": (f.comment or None) if f is not None else None})
     return out
 
@@ -395,6 +397,7 @@ def observe_core(c, r):
     lines = r["lines"]
     out = list(section_lines(r))
     out += [l for l in lines if l.startswith("BO_TX_BU_ ")]
+    vals = [l for l in lines if re.match(r"VAL_ \d+ ", l)]
     for kind in ("CM_ BO_ ", "CM_ SG_ "):
         k = 0
         while k < len(lines):
@@ -404,7 +407,7 @@ def observe_core(c, r):
                     k += 1
                     out.append(lines[k])
             k += 1
-    return {"core": out}
+    return {"core": out + vals}
 
 
 def section_lines(r):
